@@ -6,6 +6,16 @@ pid, k = sys.argv[1], sys.argv[2]
 src = f"/tmp/sdout-{pid}"
 wt = f"/tmp/sv-{pid}-{k}"
 out = f"/verif/seeded/{pid}-{k}"
+# the check is run from a separate worktree of /verif so that Gen files / evidence of /verif itself are never
+# overwritten by runs against a mutated tree
+VS = "/tmp/verif-seed"
+if not os.path.exists(VS):
+    subprocess.check_call(["git", "-C", "/verif", "worktree", "add", "-q", "--detach", VS, "main"])
+if "--sync" in sys.argv or not os.path.exists(f"{VS}/lean/.lake"):
+    subprocess.run(["git", "-C", VS, "checkout", "-q", "--detach", "main"])
+    subprocess.run(["git", "-C", VS, "checkout", "-q", "--", "."])
+
+
 def sh(cmd, **kw):
     p = subprocess.run(cmd, shell=isinstance(cmd, str), capture_output=True, text=True, **kw)
     return p.returncode, (p.stdout + p.stderr)
@@ -28,7 +38,7 @@ try:
     res["baseline_output"] = ob.strip()[-200:]
     tier = "thorough" if "--thorough" in sys.argv else "quick"
     env = dict(os.environ, VERIF_REPO=wt, VERIF_SEED="0")
-    rcc, oc = sh(["./check", pid, tier], cwd="/verif", env=env, timeout=3600)
+    rcc, oc = sh(["./check", pid, tier], cwd=VS, env=env, timeout=3600)
     res["check_tier"] = tier
     res["check_exit"] = rcc
     res["check_lines"] = [l[:300] for l in oc.splitlines() if "VIOLATION" in l or l.startswith(pid)][:8]
@@ -39,9 +49,9 @@ try:
         if l.startswith("VIOLATION") and "replay=" in l:
             replay = l.split("replay=")[1].split()[0]
             break
-    if replay and os.path.exists(f"/verif/{replay}"):
+    if replay and os.path.exists(f"{VS}/{replay}"):
         try:
-            rp = json.load(open(f"/verif/{replay}"))
+            rp = json.load(open(f"{VS}/{replay}"))
             res["replay_what"] = str(rp.get("what", rp.get("broken")))[:400]
         except Exception:
             pass
